@@ -486,4 +486,177 @@ theorem exec_safe : ∀ (st : Stmt), okStmt st = true → ∀ (fuel : Nat) (env 
             have s1 := ih hok.2 fuel _ inp o hs0 h2 hr
             exact ⟨s1.1, s1.2.1, s1.2.2.1, by simp [hc]⟩
 
+/-! ## quiet events are silent at pc `idle` -/
+
+theorem SafeLoc_gpCtr : SafeLoc gpCtr = false := by decide
+
+theorem absEv_quiet (trk : Bool) (ss : SS) (e : Event) (hi : ss.ls.upc = .idle) (hq : QuietEv e = true) :
+    absEv trk ss e = .step [] ss.pend ∨ absEv trk ss e = .undisc := by
+  have hne : ∀ l, SafeLoc l = true → l ≠ gpCtr := by
+    intro l hl h; subst h; simp [SafeLoc_gpCtr] at hl
+  cases e with
+  | ld l v mo =>
+    simp only [QuietEv] at hq
+    cases l with
+    | field b f =>
+      simp only [SafeLoc, Bool.and_eq_true, bne_iff_ne, ne_eq] at hq
+      cases b <;> simp [absEv, hq.1] <;> (try simp [gpCtr]) <;> (try (left; intro _; exact hq.1))
+    | glob g => simp [absEv, gpCtr]
+    | tls g => simp [absEv, gpCtr]
+    | obj k => simp [absEv, gpCtr]
+  | st l v mo => simp only [QuietEv] at hq; simp [absEv, hne l hq]
+  | xchg l a b mo => simp only [QuietEv] at hq; simp [absEv, hne l hq]
+  | cas l a b c m1 m2 => simp only [QuietEv] at hq; simp [absEv, hne l hq]
+  | rmw p l a b mo => simp only [QuietEv] at hq; simp [absEv, hne l hq]
+  | fence p => simp [absEv, masterAct, hi]
+  | ext name args r =>
+    simp only [QuietEv, interpExt, Bool.not_eq_true', List.contains_eq_mem, List.mem_cons, List.not_mem_nil,
+      or_false, decide_eq_false_iff_not, not_or] at hq
+    obtain ⟨h1, h2, h3, h4, h5, h6, h7⟩ := hq
+    simp only [absEv, absExt, h1, h2, h3, h4, h5, h6, h7, if_false, false_and]
+    split <;> simp
+
+theorem Ok_quiet (trk : Bool) (wins : Wins) (R : SS → Wins → Prop) : ∀ (es : List Event) (ss : SS),
+    ss.ls.upc = .idle → (∀ e ∈ es, QuietEv e = true) → R ss wins → Ok trk ss wins es R := by
+  intro es
+  induction es with
+  | nil => intro ss _ _ h; exact Ok_nil _ _ _ _ h
+  | cons e es ih =>
+    intro ss hi hq h
+    rw [Ok_cons]
+    rcases absEv_quiet trk ss e hi (hq e List.mem_cons_self) with he | he
+    · rw [he]; simp only [lrun]
+      have : ({ ls := ss.ls, pend := ss.pend } : SS) = ss := by cases ss; rfl
+      rw [this]
+      exact ih ss hi (fun e' he' => hq e' (List.mem_cons_of_mem _ he')) h
+    · rw [he]; trivial
+
+/-! ## triples relative to the pointer discipline on the oracle -/
+
+/-- like `Holds`, for the runs whose events return safe values only -/
+def HoldsS (trk : Bool) (r : Except String Out) (ss : SS) (wins : Wins) (Q : Post) : Prop :=
+  ∀ out, r = .ok out → (∀ e ∈ out.events, RetSafe e = true) →
+    Ok trk ss wins out.events (fun ss' wins' => Q out.ctl out.env ss' wins')
+
+theorem Holds.toS {trk r ss wins Q} (h : Holds trk r ss wins Q) : HoldsS trk r ss wins Q := fun out ho _ => h out ho
+
+theorem HoldsS.mono {trk r ss wins} {Q Q' : Post} (h : HoldsS trk r ss wins Q) (hm : ∀ c e s w, Q c e s w → Q' c e s w) :
+    HoldsS trk r ss wins Q' := fun out ho hr => Ok_mono _ _ _ _ _ _ (h out ho hr) (fun s w => hm _ _ s w)
+
+theorem HoldsS.seq {trk fuel a b env inp ss wins} {Qa Q : Post}
+    (ha : HoldsS trk (exec fuel a env inp) ss wins Qa)
+    (hb : ∀ e i s w, Qa .normal e s w → HoldsS trk (exec fuel b e i) s w Q)
+    (hc : ∀ c e s w, c ≠ .normal → Qa c e s w → Q c e s w) :
+    HoldsS trk (exec fuel (.seq a b) env inp) ss wins Q := by
+  intro out ho hr
+  simp only [exec, bind, Except.bind] at ho
+  cases h1 : exec fuel a env inp with
+  | error m => simp [h1] at ho
+  | ok o =>
+    simp only [h1] at ho
+    by_cases hn : o.ctl = .normal
+    · simp only [hn] at ho
+      cases h2 : exec fuel b o.env o.inp with
+      | error m => simp [h2] at ho
+      | ok o2 =>
+        simp only [h2, Except.ok.injEq] at ho
+        subst ho
+        have hA := ha o h1 (fun e he => hr e (by simp [he]))
+        apply Ok_append
+        refine Ok_mono _ _ _ _ _ _ hA ?_
+        intro s w hq
+        rw [hn] at hq
+        exact hb _ _ _ _ hq o2 h2 (fun e he => hr e (by simp [he]))
+    · have : out = o := by
+        revert ho; cases hc' : o.ctl <;> simp_all
+      subst this
+      exact Ok_mono _ _ _ _ _ _ (ha out h1 hr) (fun s w hq => hc _ _ _ _ hn hq)
+
+def PrivSafe (priv : Loc → Option Val) : Prop := ∀ l v, SafeLoc l = true → priv l = some v → SafeVal v = true
+
+/-- the master barrier's precondition together with the pointer discipline on the private view -/
+def MPreS (MPre : (Loc → Option Val) → Prop) : (Loc → Option Val) → Prop := fun priv => MPre priv ∧ PrivSafe priv
+
+/-- `MPre` only looks at unsafe locations (configuration globals) -/
+def MUnsafeOnly (MPre : (Loc → Option Val) → Prop) : Prop :=
+  ∀ p p' : Loc → Option Val, (∀ l, SafeLoc l = false → p' l = p l) → MPre p → MPre p'
+
+/-- `Quiet` relative to the pointer discipline (nothing is claimed about `dst`: an unbound `dst` makes the caller's next use
+fail, which is outside the theorems about `.ok` runs) -/
+def QuietS (trk : Bool) (MPre : (Loc → Option Val) → Prop) (st : Stmt) (dst : Option String) : Prop :=
+  ∀ fuel env inp ss wins, ss.ls.upc = .idle → ss.pend = none → PrivSafe env.priv →
+    HoldsS trk (exec fuel st env inp) ss wins (fun ctl e s _ =>
+      match ctl with
+      | .normal => s = ss ∧ e.priv gpCtr = env.priv gpCtr ∧ (MPre env.priv → MPre e.priv) ∧
+          (∀ x, some x ≠ dst → e.vars x = env.vars x)
+      | .blocked | .fuel => True
+      | _ => False)
+
+/-- a call (with closed arguments) of a function whose body passes the syntactic check is quiet -/
+theorem quiet_call (trk : Bool) (MPre : (Loc → Option Val) → Prop) (hU : MUnsafeOnly MPre)
+    (dst : Option String) (params : List String) (args : List Expr) (body : Stmt) (vs : List Val)
+    (hev : ∀ env, evalArgs env args = .ok vs) (hlen : params.length = vs.length)
+    (hvs : ∀ v ∈ vs, SafeVal v = true) (hok : okStmt body = true) :
+    QuietS trk (MPreS MPre) (.call dst params args body) dst := by
+  intro fuel env inp ss wins hi hp hps out ho hr
+  simp only [exec, hev, bind, Except.bind, hlen, ne_eq, not_true_eq_false, if_false] at ho
+  have hs0 : SafeEnv { vars := bindParams params vs, priv := env.priv } := ⟨bindParams_safe params vs hvs, hps⟩
+  cases h2 : exec fuel body { vars := bindParams params vs, priv := env.priv } inp with
+  | error m => simp [h2] at ho
+  | ok o =>
+    simp only [h2] at ho
+    have hnormal : ∀ (so : SafeOut { vars := bindParams params vs, priv := env.priv } o) (e' : Env),
+        e'.priv = o.env.priv → (∀ x, some x ≠ dst → e'.vars x = env.vars x) →
+        ss = ss ∧ e'.priv gpCtr = env.priv gpCtr ∧ (MPreS MPre env.priv → MPreS MPre e'.priv) ∧
+          (∀ x, some x ≠ dst → e'.vars x = env.vars x) := by
+      intro so e' hpe hv1
+      refine ⟨rfl, by rw [hpe]; exact so.2.2.1 _ SafeLoc_gpCtr, ?_, hv1⟩
+      intro hm
+      refine ⟨hU _ _ (fun l hl => by rw [hpe]; exact so.2.2.1 l hl) hm.1, ?_⟩
+      rw [hpe]; exact so.2.1.priv
+    cases hc : o.ctl with
+    | normal =>
+      simp only [hc, Except.ok.injEq] at ho; subst ho
+      have so := exec_safe body hok fuel _ inp o hs0 h2 hr
+      exact Ok_quiet trk wins _ o.events ss hi so.1 (hnormal so _ rfl (fun x hx => rfl))
+    | ret v =>
+      cases v with
+      | none =>
+        simp only [hc, Except.ok.injEq] at ho; subst ho
+        have so := exec_safe body hok fuel _ inp o hs0 h2 hr
+        exact Ok_quiet trk wins _ o.events ss hi so.1 (hnormal so _ rfl (fun x hx => rfl))
+      | some v =>
+        simp only [hc, Except.ok.injEq] at ho; subst ho
+        have so := exec_safe body hok fuel _ inp o hs0 h2 hr
+        refine Ok_quiet trk wins _ o.events ss hi so.1 (hnormal so _ (by rw [setDst_priv]) ?_)
+        intro x hx
+        cases dst with
+        | none => rfl
+        | some y =>
+          simp only [setDst, Env.setVar]
+          rw [if_neg (by intro h; apply hx; rw [h])]
+    | brk => simp [hc] at ho
+    | cont => simp [hc] at ho
+    | blocked =>
+      simp only [hc, Except.ok.injEq] at ho; subst ho
+      have so := exec_safe body hok fuel _ inp o hs0 h2 hr
+      exact Ok_quiet trk wins _ o.events ss hi so.1 (by simp [hc])
+    | fuel =>
+      simp only [hc, Except.ok.injEq] at ho; subst ho
+      have so := exec_safe body hok fuel _ inp o hs0 h2 hr
+      exact Ok_quiet trk wins _ o.events ss hi so.1 (by simp [hc])
+
+/-! ## the five wait-queue call statements of `synchronize_rcu` pass the check -/
+
+theorem qWaitAdd_quiet (trk MPre) (hU : MUnsafeOnly MPre) : QuietS trk (MPreS MPre) qWaitAdd (some "_t1") :=
+  quiet_call trk MPre hU _ _ _ _ [.ptr (.glob "gp_waiters"), .ptr (.glob "&wait")] (fun _ => rfl) rfl (by decide) (by decide)
+theorem qBusyWait_quiet (trk MPre) (hU : MUnsafeOnly MPre) : QuietS trk (MPreS MPre) qBusyWait none :=
+  quiet_call trk MPre hU _ _ _ _ [.ptr (.glob "&wait")] (fun _ => rfl) rfl (by decide) (by decide)
+theorem qSetState_quiet (trk MPre) (hU : MUnsafeOnly MPre) : QuietS trk (MPreS MPre) qSetState none :=
+  quiet_call trk MPre hU _ _ _ _ [.ptr (.glob "&wait"), .int 2] (fun _ => rfl) rfl (by decide) (by decide)
+theorem qMoveWaiters_quiet (trk MPre) (hU : MUnsafeOnly MPre) : QuietS trk (MPreS MPre) qMoveWaiters none :=
+  quiet_call trk MPre hU _ _ _ _ [.ptr (.glob "&waiters"), .ptr (.glob "gp_waiters")] (fun _ => rfl) rfl (by decide) (by decide)
+theorem qWakeAll_quiet (trk MPre) (hU : MUnsafeOnly MPre) : QuietS trk (MPreS MPre) qWakeAll none :=
+  quiet_call trk MPre hU _ _ _ _ [.ptr (.glob "&waiters")] (fun _ => rfl) rfl (by decide) (by decide)
+
 end UrcuVerif.Src.Sync
